@@ -205,6 +205,10 @@ def audit(mods, pid):
     thms = []
     for m in re.finditer(r"AUDIT (\S+) :: \[(.*?)\]", out, flags=re.S):
         axs = [a.strip() for a in m.group(2).replace("\n", " ").split(",") if a.strip()]
+        # auto-generated theorems of inductive types / definitions (injectivity, sizeOf, equation lemmas)
+        # are kernel-checked but are not proof obligations of the property: do not count them
+        if re.search(r"\.(injEq|inj|sizeOf_spec|eq_\d+|eq_def|congr_simp|match_\d+\S*|proof_\d+|ext|ext_iff)$", m.group(1)):
+            continue
         thms.append((m.group(1), axs))
     if rc != 0 or "AUDIT-ERR" in out:
         return None, out
